@@ -105,7 +105,16 @@ class Registry:
         c.variant = variant
         key = target if variant is None else f'{target}#{variant}'
         if key in self.contracts:
-            raise ValueError(f'duplicate contract {key}')
+            old = self.contracts[key]
+            if old.assumed and c.assumed and not c.ensures and not c.requires and not c.modifies:
+                # a frame-only assumption stated by several property files: merge
+                old.props = sorted(set(old.props) | set(c.props))
+                return old
+            if old.assumed and c.assumed and not old.ensures and not old.requires and not old.modifies:
+                c.props = sorted(set(old.props) | set(c.props))
+                self.by_target[target] = [x for x in self.by_target[target] if x is not old]
+            else:
+                raise ValueError(f'duplicate contract {key}')
         self.contracts[key] = c
         self.by_target.setdefault(target, []).append(c)
         return c
